@@ -46,7 +46,7 @@ def build_loom():
 def scenarios(tier):
     """(known, main queries, thread queries, query threads, preemption bound)"""
     out = []
-    # a launched command delta does not describe (`git status`): the guess stays in force
+    # a launched command delta has no special handling for (`git status`): reported as launched (None), never the guess
     out.append((2, 1, 0, 1, "none"))
     out.append((2, 2, 0, 1, "none"))
     out.append((2, 1, 1, 1, "none"))
@@ -198,6 +198,69 @@ def first_use_cases():
     return n, out
 
 
+def launched_cases():
+    """Every way delta launches a command itself, under every feasible total order of the hook points (and free-running):
+    (a) `delta git diff-tree -p HEAD` - a git command delta has no special handling for - while the background search
+    "finds" `git grep -n one`: the stub's output must not be rendered as grep output;
+    (b) `delta -@--word-diff a b` (delta starts `git diff --no-index ... --word-diff` itself) while the search finds
+    a plain `git diff`: the output must be the one of the explicitly launched `delta git diff --no-index --color
+    --word-diff -- a b`."""
+    d = os.path.join(BUILD, "stubs_c20_launch")
+    os.makedirs(d, exist_ok=True)
+    p = os.path.join(d, "git")
+    with open(p, "w") as f:
+        f.write("#!/bin/sh\ncase \"$*\" in\n  *--version*) echo 'git version 2.42.0';;\n"
+                "  *diff-tree*) printf 'src/a.rs:7:line one\\n';;\n"
+                "  *) printf 'diff --git a/a.txt b/b.txt\\n--- a/a.txt\\n+++ b/b.txt\\n@@ -1,2 +1,2 @@\\n ctx\\nalpha [-beta-]{+BETA+} gamma\\n';;\nesac\n")
+    os.chmod(p, os.stat(p).st_mode | stat.S_IXUSR | stat.S_IXGRP | stat.S_IXOTH)
+    for name in ("a.txt", "b.txt"):
+        with open(os.path.join(d, name), "w") as f:
+            f.write("ctx\nalpha %s gamma\n" % ("beta" if name == "a.txt" else "BETA"))
+    base = ["--no-gitconfig", "--paging=never", "--detect-dark-light=never", "--width=60", "--grep-file-style=122"]
+    out = []
+    n = 0
+
+    def run(extra, guess, order):
+        env = base_env()
+        env["PATH"] = d + ":" + env["PATH"]
+        env["DELTA_VERIF_PARENT_ARGS"] = guess
+        if order:
+            env["DELTA_VERIF_SCHED"] = ",".join(order)
+        return subprocess.run([build.BIN] + base + extra, env=env, cwd=d, stdin=subprocess.DEVNULL,
+                              stdout=subprocess.PIPE, stderr=subprocess.PIPE, timeout=60)
+    ref = run(["git", "diff", "--no-index", "--color", "--word-diff", "--", "a.txt", "b.txt"], "git diff", None)
+    if ref.returncode not in (0, 1) or b"BETA" not in ref.stdout:
+        raise MachineryError("launched_cases: reference run failed: %r %r" % (ref.returncode, ref.stderr[-200:]))
+    for order in [None] + feasible_orders(True):
+        a = run(["git", "diff-tree", "-p", "HEAD"], "git grep -n one", order)
+        n += 1
+        err = None
+        if a.returncode == 97:
+            err = "order infeasible: the launched command is never published (%s)" % a.stderr.decode()[-100:]
+        elif b"\x1b[38;5;122m" in a.stdout or b"line one" not in a.stdout:
+            err = "the output of the launched `git diff-tree` is rendered as grep output (the background guess)"
+        if err:
+            v = Violation("launched-command-not-reported:undescribed", "delta git diff-tree -p HEAD%s: %s"
+                          % (" under order " + ",".join(order) if order else "", err), None, None, None, a.stdout[:300],
+                          {"DELTA_VERIF_SCHED": order, "DELTA_VERIF_PARENT_ARGS": "git grep -n one"})
+            v.args = base + ["git", "diff-tree", "-p", "HEAD"]
+            out.append(v)
+        b = run(["-@--word-diff", "a.txt", "b.txt"], "git diff", order)
+        n += 1
+        err = None
+        if b.returncode == 97:
+            err = "order infeasible: the command started for the two files is never published (%s)" % b.stderr.decode()[-100:]
+        elif b.stdout != ref.stdout:
+            err = "output differs from that of the explicitly launched git diff --word-diff (stale or guessed caller)"
+        if err:
+            v = Violation("launched-command-not-reported:two-files", "delta -@--word-diff a.txt b.txt%s: %s"
+                          % (" under order " + ",".join(order) if order else "", err), None, None, ref.stdout[:300], b.stdout[:300],
+                          {"DELTA_VERIF_SCHED": order, "DELTA_VERIF_PARENT_ARGS": "git diff"})
+            v.args = base + ["-@--word-diff", "a.txt", "b.txt"]
+            out.append(v)
+    return n, out
+
+
 ASSUMPTIONS = [
     "loom explores sequentially consistent interleavings plus its C11 model of the SeqCst atomics used; it "
     "does not model spurious condvar wake-ups (std's wait_while loop, reproduced verbatim in the harness shim, "
@@ -250,6 +313,13 @@ def main(tier):
                               {"DELTA_VERIF_SCHED": ",".join(order)})
                 viols.append(v)
     nfirst, fv = first_use_cases()
+    nl, lv = launched_cases()
+    nfirst += nl
+    seen = set()
+    for v in lv:
+        if v.klass not in seen:
+            seen.add(v.klass)
+            fv.append(v)
     viols.extend(fv)
     best = {}
     for v in viols:
